@@ -1,5 +1,5 @@
 (* Xml/ReadingExamples.v — the faithfulness theorem on the regenerated tables; an explicit reading; the relaxations
-   R1..R8 of Xml/Reading.v witnessed on the loader model (each of these documents is accepted by STRICT loading). *)
+   R1..R7 of Xml/Reading.v witnessed on the loader model (each of these documents is accepted by STRICT loading). *)
 From AV Require Import Base.Bytes Base.Outcome Base.Utf8 Hash.HashModel Spec.SpecTypes Spec.SpecOps Spec.SpecReal Xml.Lexer Xml.Parser
   Xml.ParserExamples Xml.RoundTripAttrs Xml.RoundTripLexer Xml.RoundTripCanonFinal Xml.RoundTripExamples
   Xml.Reading Xml.ReadingInterp Xml.ReadingParser.
@@ -46,11 +46,11 @@ Proof.
   assert (WA : forall w n v, w <> "" -> forallb is_ws (BS w) = true -> clean_name (BS n) = true -> no_byte 34 (BS v) -> no_byte 62 (BS v) -> WfAttr (att w n v)).
   { intros w n v A B C D E. unfold WfAttr, att. cbn [xa_ws xa_name xa_quote xa_value]. repeat split; auto. destruct w; [congruence|discriminate]. }
   assert (LEAF : forall x, WfX x -> WfItems [x]) by (intros x W; constructor; [exact W|constructor|reflexivity]).
-  constructor; [vm_compute; reflexivity| |left; reflexivity|discriminate|].
+  constructor; [vm_compute; reflexivity| |reflexivity|discriminate|].
   - repeat constructor; apply WA; try discriminate; vm_compute; reflexivity.
-  - apply LEAF. constructor; [vm_compute; reflexivity|constructor|left; reflexivity|discriminate|].
-    apply LEAF. constructor; [vm_compute; reflexivity|constructor|left; reflexivity|discriminate|].
-    apply LEAF. constructor; [vm_compute; reflexivity|constructor|left; reflexivity|discriminate|].
+  - apply LEAF. constructor; [vm_compute; reflexivity|constructor|reflexivity|discriminate|].
+    apply LEAF. constructor; [vm_compute; reflexivity|constructor|reflexivity|discriminate|].
+    apply LEAF. constructor; [vm_compute; reflexivity|constructor|reflexivity|discriminate|].
     apply LEAF. constructor; [discriminate|vm_compute; reflexivity].
 Qed.
 
@@ -67,18 +67,31 @@ Definition doc_R8 := ParserExamples.doc "<AR-PACKAGES><AR-PACKAGE nonsense=""  >
 Open Scope list_scope.
 
 Example relaxations_accepted :
-  map (fun d => is_ret (LOAD true d)) [doc_R1; doc_R2; doc_R3; doc_R4; doc_R5; doc_R6; doc_R7; doc_R8] =
-  [true; true; true; true; true; true; true; true].
+  map (fun d => is_ret (LOAD true d)) [doc_R1; doc_R2; doc_R3; doc_R4; doc_R5; doc_R6; doc_R7] =
+  [true; true; true; true; true; true; true].
 Proof. vm_compute. reflexivity. Qed.
 
-(* R4: both values of the repeated attribute are stored; R8: the dangling attribute leaves no trace *)
+(* R4: both values of the repeated attribute are stored *)
 Definition root_kid_attrs (d : list N) : option (list (N * cdata)) :=
   match LOAD true d with
   | Val (Ret (ENode _ _ _ [inl (ENode _ _ _ [inl (ENode _ _ a _ _)] _)] _) _) => Some a
   | _ => None
   end.
 Example R4_both_stored : option_map (fun a => List.length a) (root_kid_attrs doc_R4) = Some 2%nat. Proof. vm_compute. reflexivity. Qed.
-Example R8_no_trace : root_kid_attrs doc_R8 = Some []. Proof. vm_compute. reflexivity. Qed.
+
+(* the former relaxation R8 (regression of the fixed dangling-attribute defect): a tag that ends with `name = quote blanks`
+   and no closing quote used to be accepted by strict loading, the attribute silently dropped; now AttributeValueError
+   (strict: error, lenient: warning) *)
+Definition strict_kind (d : list N) : option pkind :=
+  match LOAD true d with Val (Raise (ErrParse _ k _ _) _) => Some k | _ => None end.
+Definition lenient_kinds (d : list N) : option (list pkind) :=
+  match LOAD false d with
+  | Val (Ret _ st) => Some (map (fun e => match e with ErrParse _ k _ _ => k | _ => InvalidArxmlFileHeader end) (p_warnings st))
+  | _ => None
+  end.
+Example dangling_attribute_rejected :
+  strict_kind doc_R8 = Some AttributeValueError /\ lenient_kinds doc_R8 = Some [AttributeValueError].
+Proof. split; vm_compute; reflexivity. Qed.
 
 (* where the interpretation deliberately differs from a naive reading: a Pattern value is the text ITSELF (blanks at the
    ends dropped), its references are not decoded - although the text denotes "1.0.0;a&b" (Unesc) *)
